@@ -233,3 +233,26 @@ pub fn run_commit(case: &TxCase) -> (Outcome, Plain) {
 }
 
 pub type Cdb = CacheDB<EmptyDB>;
+
+use crate::monitor::{monitor_register, Mon};
+
+/// Execution with the step/frame monitors attached. Panics inside the EVM are caught and reported
+/// as a `Fatal` outcome with the panic message.
+pub fn exec_monitored(case: &TxCase, record_steps: bool) -> (Outcome, Mon, u64) {
+    let db = to_cachedb(&case.world);
+    let spec = case.spec();
+    let b = Evm::builder().with_db(db).with_external_context(Mon::new(record_steps)).with_env(case.env()).with_spec_id(spec);
+    let b = if case.reward { b } else { b.with_handler(Handler::mainnet_with_spec(spec, false)) };
+    let mut evm = b.append_handler_register(monitor_register).build();
+    let r = crate::fw::catch(|| evm.transact());
+    let end_depth = evm.context.evm.journaled_state.depth();
+    let mon = std::mem::take(&mut evm.context.external);
+    match r {
+        Ok(r) => (Outcome::from_result(r), mon, end_depth),
+        Err(p) => (
+            Outcome { class: Class::Fatal, reason: format!("panic: {p}"), gas_used: 0, gas_refunded: 0, output: Bytes::new(), logs: vec![], created: None, state: Default::default() },
+            mon,
+            end_depth,
+        ),
+    }
+}
